@@ -102,11 +102,11 @@ typedef struct str_s {
 #define LONG40	"vvvvvvvvvvvvvvvvvvvvvvvvvvvvvvvvvvvvvvvv"
 #define MID17	"wwwwwwwwwwwwwwwww"
 
-static str_t SECTS[] = { {"A", 1}, {"b", 1}, {"a", 1} };		/* set alphabet (prefixes used) */
+static str_t SECTS[] = { {"A", 1}, {"b", 1}, {"a", 1}, {"A]x[", 4} };	/* set alphabet (prefixes used); the last one only through add_one_set(): brackets inside a name */
 static str_t NAMES[] = { {"k", 1}, {"K", 1}, {"xy", 2} };
 static str_t VALS[]  = { {"", 0}, {"1", 1}, {LONG40, 40}, {"a=b", 3}, {MID17, 17} };
 /* lookup spellings: every set spelling, its other-case spellings, a prefix, and absent ones */
-static str_t LSECTS[] = { {"A", 1}, {"a", 1}, {"b", 1}, {"B", 1}, {"C", 1}, {"Ab", 2} };
+static str_t LSECTS[] = { {"A", 1}, {"a", 1}, {"b", 1}, {"B", 1}, {"C", 1}, {"Ab", 2}, {"A]x[", 4} };
 static str_t LNAMES[] = { {"k", 1}, {"K", 1}, {"xy", 2}, {"XY", 2}, {"Xy", 2}, {"x", 1}, {"z", 1} };
 #define NELEM(a) (sizeof(a) / sizeof((a)[0]))
 
@@ -1310,6 +1310,14 @@ add_set_ops(phase_t *ph, int nsect, int nname, const char *vals, int zform_every
 }
 
 static void
+add_one_set(phase_t *ph, int sect, int name, int val) {
+	op_t *o = &ph->ops[ph->nops ++];
+	memset(o, 0, sizeof(*o));
+	o->kind = OP_SET;
+	o->sect = sect; o->name = name; o->val = val;
+}
+
+static void
 add_parse_op(phase_t *ph, int snip, int only_first) {
 	op_t *o = &ph->ops[ph->nops ++];
 	memset(o, 0, sizeof(*o));
@@ -1364,6 +1372,7 @@ phases_init(int inplace) {
 	add_parse_op(&PH_DEEP, 9, 0);
 	add_set_ops(&PH_DEEP, 2, 2, "012", 3);
 	add_num_op(&PH_DEEP, OP_SET_UINT, 0, 1, 100);
+	add_one_set(&PH_DEEP, 3, 0, 1);	/* a section whose name contains ']' and '[' */
 	add_num_op(&PH_DEEP, OP_SET_UINT, 0, 0, (int64_t)UINT64_MAX);	/* the ends of both integer types */
 	add_num_op(&PH_DEEP, OP_SET_INT, 1, 1, INT64_MIN);
 
